@@ -83,11 +83,20 @@ def explore(ctx, check, n, label='h', max_shrinks_per_raw=2):
         except common_mod.StepBudget as e:
             f = Failure(None, 'non-termination', str(e), ['<history did not finish>'])
             st.count('loop_guard_verdicts')
+        except Exception as e:
+            if not common_mod.raised_in_library(e):
+                raise
+            f = Failure(None, 'raised[%s]' % type(e).__name__, 'the library raised %r where the check expected no exception to be possible' % (e,),
+                        ['<unexpected exception>'])
+            st.count('unexpected_library_exceptions')
         finally:
             guard.disarm()
         if i < 2:
             st.sample({'kind': label, 'history': h})
         if f is None:
+            continue
+        if f.op == ['<unexpected exception>']:
+            st.violation('%s:%s' % (f.read, label), repr(f), {'history': h})
             continue
         if f.read == 'non-termination':
             # not shrunk: every candidate would have to be run to its end
